@@ -216,6 +216,7 @@ class Executor(Engine, ExprMixin, StmtMixin, CallMixin):
                     env[n] = V(v.t, spec)
         pre = State(dict(env), dict(st.heap), st.guard)
         env = self.let_env(c, env, pre)
+        pre.vars = dict(env)
         for i, r in enumerate(c.requires):
             wd, truth = self.eval_spec(st, r, c, env, pre)
             self.oblige(st, 'pre:%s:%d@%d' % (c.qual.split('.')[-1], i, line), And(wd, truth),
@@ -658,6 +659,7 @@ class Executor(Engine, ExprMixin, StmtMixin, CallMixin):
             env[gname] = self.make_param(st, gname, gspec)
         pre = State(dict(env), dict(st.heap), st.guard)
         envl = self.let_env(c, env, pre)
+        pre.vars = dict(envl)
         for r in c.requires:
             wd, truth = self.eval_spec(st, r, c, envl, pre)
             self.assume(st, And(wd, truth))
